@@ -357,6 +357,8 @@ class Evaluator(object):
             if pat.get('sub'):
                 self.bind_pat(pat['sub'], val, env)
         elif k == 'PTuple':
+            if val is not None and val[0] != 'tup' and pat.get('dd') is None:
+                self.__dict__.setdefault('tuple_arity', {})[val] = len(pat['pats'])
             for i, sp in enumerate(pat['pats']):
                 sub = None
                 if val is not None and val[0] == 'tup' and pat.get('dd') is None and i < len(val[1]):
@@ -457,7 +459,7 @@ class Evaluator(object):
         the other branch."""
         out = []
         k = e.get('k')
-        if k == 'If' and e['sp'] in self.try_ifs:
+        if k in ('If', 'Match') and e['sp'] in self.try_ifs:
             return out
         if k == 'If':
             ctt = self.cond_term(e['cond'], env)
@@ -668,7 +670,11 @@ class Evaluator(object):
         if k in ('Call', 'MethodCall'):
             return self.eval_call(node, env, guards, fn, chain)
         if k == 'Tup':
-            return ('tup', tuple(self.eval(e, env, guards, fn, chain) for e in node['es']))
+            es = tuple(self.eval(e, env, guards, fn, chain) for e in node['es'])
+            if es and all(x is not None and x[0] == 'field' and x[2] == str(i) and x[1] == es[0][1] for i, x in enumerate(es)) \
+                    and self.__dict__.get('tuple_arity', {}).get(es[0][1]) == len(es):
+                return es[0][1]  # a tuple taken apart by a full tuple pattern and put together again is that tuple
+            return ('tup', es)
         if k == 'Array':
             return ('tup', tuple(self.eval(e, env, guards, fn, chain) for e in node['es']))
         if k == 'Binary':
@@ -946,6 +952,7 @@ class Evaluator(object):
                 x.idx = i
             t = ('try', ('call', 'std::option::Option::ok_or', (sc, e), ()))
             self.emit('try', t, node, guards, fn, chain)
+            self.try_ifs.add(node['sp'])
             return replace(sbt, payload, t)
         if nbt is None or nbt[0] != 'call' or nbt[1] != 'Err' or len(nbt[2]) != 1:
             return None
@@ -1002,6 +1009,7 @@ class Evaluator(object):
                 x.idx = i
             t = ('try', subject)
             self.emit('try', t, node, guards, fn, chain)
+            self.try_ifs.add(node['sp'])
             return replace(obt, payload_ok, t)
         unit_ok = oa['pat'].get('k') == 'PTupleStruct' and len(oa['pat'].get('pats', [])) == 1 and oa['pat']['pats'][0].get('k') == 'PTuple' and not oa['pat']['pats'][0].get('pats')
         if unit_ok and obt[0] == 'call' and obt[1] == 'Ok' and len(obt[2]) == 1 and obt[2][0] in (('unit',), ('tup', ())) and subject is not sc:
